@@ -36,37 +36,63 @@ theorem inv_history (κ : Kind) (ops : List Op) :
 example : (Book.run Fix.fixed .pubo [.setitem [0] 0, .setitem [2, 1, 1] 3]).mapping = [(2, 0), (1, 1)] := by
   decide +kernel
 
-/-- **T14.4 — constraint ancilla names are never reused** (I4): along every history of user edits (keys without
-labels of the reserved form `__a<k>`), every label of that form that the model mentions — in its terms, its
-`variables` or its `mapping` — is below the ancilla counter, so the names `_next_ancilla` hands out next occur
-nowhere in the model.  No hypothesis on the constraint generator: that `Qv.addConstraint` (and the PCSO wrapper)
-only introduces labels of the constraint polynomial and ancillas between the old and the new counter is
-`Qv.C03.pcbo_counter_and_labels` (`Qv.Book.consFresh_of_user`). -/
-theorem anc_history (κ : Kind) (ops : List Op) (huser : ∀ op ∈ ops, op.User) : I4 (Book.run Fix.fixed κ ops) :=
-  run_I4_user rfl κ ops huser
+/-- **T14.4 — constraint ancilla names are never reused** (I4): along every history of user edits of a model of
+class `κ` (`Op.UserAt κ`: keys without labels of the reserved form `__a<k>`; constructors `T(H)` only of the own
+class; `update(G)` with a dict of user keys or with a sound model `G` of the own constrained class), every label of
+that form that the model mentions — in its terms, its `variables` or its `mapping` — is below the ancilla counter,
+so the names `_next_ancilla` hands out next occur nowhere in the model.  This covers the copy-like operations
+`round`, `subs`, `T(H)`, `H + c`, `c + H`, `H - c`, `c - H`, `H * c`, `-H`, `+H`, `H / c`, `H ** e`, `H + d`, `H * d`,
+`refresh`, `copy`, `set_mapping` and `update(model)`: the history goes on with their result.  No hypothesis on the
+constraint generator (`Qv.C03.pcbo_counter_and_labels`, `Qv.Book.consFresh_of_user`). -/
+theorem anc_history (κ : Kind) (ops : List Op) (huser : ∀ op ∈ ops, op.UserAt κ) :
+    I4 (Book.run Fix.fixed κ ops) :=
+  (run_I4_user rfl rfl rfl κ ops huser).2
 
-example : ([.cons .le [([0], 1), ([1], 1), ([2], 1), ([], -2)] 1 true none none, .imulD [([0], 1)], .refresh,
-     .cons .ne [([0], 1), ([1], 1), ([], -1)] 1 true none none] : List Op).all (fun op => decide op.User) = true := by
+/-- along such a history the model keeps its class -/
+theorem kind_history (κ : Kind) (ops : List Op) (huser : ∀ op ∈ ops, op.UserAt κ) :
+    (Book.run Fix.fixed κ ops).kind = κ :=
+  (run_I4_user rfl rfl rfl κ ops huser).1
+
+def exHist : List Op :=
+  [.cons .le [([0], 1), ([1], 1), ([2], 1), ([], -2)] 1 true none none, .round none, .imulD [([0], 1)], .refresh,
+   .bin (.mulC 1), .subs, .rsubC 0, .cast .pcbo, .remap,
+   .updateM .pcbo [([3], 2), ([3, ANC + 4], 1)] [(.eq, [([3], 1)])] 5,
+   .cons .ne [([0], 1), ([1], 1), ([], -1)] 1 true none none]
+
+example : exHist.all (fun op => decide (op.UserAt .pcbo)) = true := by decide +kernel
+example : (Book.run Fix.fixed .pcbo exHist).ancilla = 8 ∧ (Book.run Fix.fixed .pcbo exHist).constraints.length = 3 := by
   decide +kernel
 
 /-- **T14.1 (full invariant).**  `Inv` holds after every history of user edits. -/
-theorem inv_history_full (κ : Kind) (ops : List Op) (huser : ∀ op ∈ ops, op.User) :
+theorem inv_history_full (κ : Kind) (ops : List Op) (huser : ∀ op ∈ ops, op.UserAt κ) :
     Inv (Book.run Fix.fixed κ ops) :=
   ⟨(inv_history κ ops).2.1, (inv_history κ ops).2.2.1, (inv_history κ ops).2.2.2, anc_history κ ops huser⟩
 
-/-- **T14.4 (counter)** — only `clear()` resets the ancilla counter, only a constraint changes it otherwise
-(`*=` by a dict and `**=` included: `ancAfter` is `0` for `clear`, the constraint's returned counter for a
-constraint, the old counter otherwise), and a constraint never lowers it. -/
-theorem anc_counter (s : State) (op : Op) : (step Fix.fixed s op).1.ancilla = ancAfter s op :=
-  step_anc s op (Or.inl rfl)
+/-- the old form of the hypothesis (`Op.User`: user keys, no constructor, `update` with user keys) implies the new -/
+theorem inv_history_full_user (κ : Kind) (ops : List Op) (huser : ∀ op ∈ ops, op.User) :
+    Inv (Book.run Fix.fixed κ ops) :=
+  inv_history_full κ ops (fun op h => userAt_of_user κ op (huser op h))
 
-example (s : State) (q : Poly) : ancAfter s (.imulD q) = s.ancilla := rfl
-example (s : State) : ancAfter s .clear = 0 := rfl
+/-- **T14.4 (counter)** — `ancAfter`: `clear()` resets the ancilla counter; a constraint sets it to the counter it
+returns; `update(G)` with a model of the own constrained class raises it to `max(counter, G's counter)`; the
+constructor of another class makes a model with counter `0`; every other edit — `*=` by a dict, `**=`, `round`,
+`subs`, the copying operators, `refresh`, `copy`, `set_mapping` included — leaves it unchanged. -/
+theorem anc_counter (s : State) (op : Op) : (step Fix.fixed s op).1.ancilla = ancAfter Fix.fixed s op :=
+  step_anc s op (fixOK_fixed op)
+
+example (s : State) (q : Poly) : ancAfter Fix.fixed s (.imulD q) = s.ancilla := rfl
+example (s : State) (nd : Option Int) : ancAfter Fix.fixed s (.round nd) = s.ancilla := rfl
+example (s : State) (a : Arith) : ancAfter Fix.fixed s (.bin a) = s.ancilla := rfl
+example (s : State) : ancAfter Fix.fixed s .clear = 0 := rfl
 example (s : State) (r : Rel) (P : Poly) (lam : Rat) (lt : Bool) (lo hi : Option Rat) :
-    ancAfter s (.cons r P lam lt lo hi) =
+    ancAfter Fix.fixed s (.cons r P lam lt lo hi) =
       if hasCons s.kind then (consDelta s.kind s.ancilla r P lam lt (lo, hi)).2.1 else s.ancilla := rfl
+example (s : State) (κg : Kind) (q : Poly) (cs : List (Rel × Poly)) (a : Nat) :
+    ancAfter Fix.fixed s (.updateM κg q cs a) =
+      if hasCons s.kind && κg == s.kind then max s.ancilla a else s.ancilla := rfl
 
-theorem anc_counter_mono (s : State) (op : Op) (hu : op.User) (hc : op ≠ .clear) :
+/-- no user edit other than `clear()` lowers the counter -/
+theorem anc_counter_mono (s : State) (op : Op) (hu : op.UserAt s.kind) (hc : op ≠ .clear) :
     s.ancilla ≤ (step Fix.fixed s op).1.ancilla := by
   rw [anc_counter]
   cases op with
@@ -75,6 +101,15 @@ theorem anc_counter_mono (s : State) (op : Op) (hu : op.User) (hc : op ≠ .clea
     simp only [ancAfter]
     split
     · exact (consFresh_of_user s.kind s.ancilla r P lam lt (lo, hi) hu).1
+    · exact Nat.le_refl _
+  | cast κ =>
+    have hκ : κ = s.kind := hu
+    simp only [ancAfter, hκ, beq_self_eq_true, if_true]
+    cases (iaddLoop Fix.fixed (init s.kind) s.terms).2 <;> exact Nat.le_refl _
+  | updateM κg q cs a =>
+    simp only [ancAfter]
+    split
+    · exact Nat.le_max_left _ _
     · exact Nat.le_refl _
   | setitem k v => exact Nat.le_refl _
   | augitem k a d => exact Nat.le_refl _
@@ -89,9 +124,15 @@ theorem anc_counter_mono (s : State) (op : Op) (hu : op.User) (hc : op ≠ .clea
   | update q => exact Nat.le_refl _
   | refresh => exact Nat.le_refl _
   | copy => exact Nat.le_refl _
+  | round nd => exact Nat.le_refl _
+  | subs => exact Nat.le_refl _
+  | bin a => exact Nat.le_refl _
+  | rsubC c => exact Nat.le_refl _
+  | remap => exact Nat.le_refl _
 
 example : (Book.run Fix.fixed .pcso
-    [.cons .le [([0], 1), ([1], 1), ([2], 1), ([], -2)] 1 true none none, .ipow 2, .refresh, .copy]).ancilla = 3 := by
+    [.cons .le [([0], 1), ([1], 1), ([2], 1), ([], -2)] 1 true none none, .ipow 2, .refresh, .copy, .round (some 0),
+     .bin (.mulC 2), .subs]).ancilla = 3 := by
   decide +kernel
 
 /-! ## T14.2 — refresh and copy -/
@@ -217,6 +258,36 @@ theorem d9_replay :
 
 example : ancStart Fix.fixed (Book.run Fix.fixed .puso [.setitem [0] 1, .setitem [1, 2, 3] 1, .setitem [0] 0])
       ∉ convBase (Book.run Fix.fixed .puso [.setitem [0] 1, .setitem [1, 2, 3] 1, .setitem [0] 0]) := by
+  decide +kernel
+
+/-- round (fixed by 0d891c4): `H = PCBO(); H.add_constraint_le_zero(...); R = round(H)` kept the constraints and the
+`__a*` terms but restarted the counter at `0`. -/
+theorem round_replay : ¬ Inv (Book.run { Fix.fixed with dr := false } .pcbo
+    [.cons .le [([0], 1), ([1], 1), ([2], 1), ([], -2)] 1 true none none, .round none]) :=
+  fun h => absurd h.2.2.2 (by decide +kernel)
+
+example : Inv (Book.run Fix.fixed .pcbo
+    [.cons .le [([0], 1), ([1], 1), ([2], 1), ([], -2)] 1 true none none, .round none]) :=
+  ⟨(inv_history _ _).2.1, (inv_history _ _).2.2.1, by decide +kernel, by decide +kernel⟩
+
+/-- D10 (fixed by 1495eb6): `H = PCBO(); H.update(G)` for a PCBO `G` holding `__a0`, `__a1` (counter `2`) merged `G`'s
+constraints and terms but left `H`'s counter at `0`. -/
+theorem d10_replay : ¬ Inv (Book.run { Fix.fixed with d10 := false } .pcbo
+    [.updateM .pcbo [([0], 1), ([0, ANC], 2), ([ANC + 1], 1)] [(.le, [([0], 1)])] 2]) :=
+  fun h => absurd h.2.2.2 (by decide +kernel)
+
+example : Inv (Book.run Fix.fixed .pcbo
+    [.updateM .pcbo [([0], 1), ([0, ANC], 2), ([ANC + 1], 1)] [(.le, [([0], 1)])] 2]) ∧
+    (Book.run Fix.fixed .pcbo
+    [.updateM .pcbo [([0], 1), ([0, ANC], 2), ([ANC + 1], 1)] [(.le, [([0], 1)])] 2]).ancilla = 2 :=
+  ⟨⟨(inv_history _ _).2.1, (inv_history _ _).2.2.1, by decide +kernel, by decide +kernel⟩, by decide +kernel⟩
+
+/-- Not an edit of *the* model: the constructor of another class (`PCSO(H)`, `PUBO(H)`, `PCBO(PUBO(H))`) makes a model of
+that class which keeps the `__a*` terms as ordinary labels and has no / a fresh counter — by design (`PUBO` has no
+counter, `PCBO.__init__` adopts only a PCBO's).  I4 is a statement about histories that stay within one class
+(`Op.UserAt`); I0–I3 (`inv_history`) hold across classes as well. -/
+theorem cross_class_constructor_replay : ¬ I4 (Book.run Fix.fixed .pcbo
+    [.cons .le [([0], 1), ([1], 1), ([2], 1), ([], -2)] 1 true none none, .cast .pcso]) := by
   decide +kernel
 
 end Qv.C14
